@@ -286,7 +286,7 @@ def reference(d):
         size = FULL.round_sqrt(len(ms[0]['distances']))
         if max(ndistinct(locs), 1) != size or any(l[0] == 'i' and l[1] >= size for l in locs):
             out.append(1504)
-    elif ms is None and not has_i and d['profiles'] and not locs:
+    elif ms is None and not has_i and d['profiles'] and not locs and not bad_speed(d):
         out.append(1504)
     if 1505 in base or (d.get('clustering') is not None and d['clustering'] not in d['profiles']):
         out.append(1505)
@@ -336,9 +336,7 @@ def py_xknown(d):
     if x11:
         out.append(11)
     locs = [tuple(l) for l in d['_locs']]
-    if d.get('matrices') is None and not any(l[0] == 'i' for l in locs) and d['profiles'] \
-            and any(s is not None and s <= 0 for s in (d.get('speeds') or [])):
-        out.append(14)
+    # (X14 - speed <= 0 without matrices - was repaired in /repo by 01921b9: E0002 from the matrix step, no class any more)
     if any(st['times'] is not None and any(c10.p_window(w) is None for w in st['times'])
            for v in d['vehicles'] for s in v['shifts'] for st in (s.get('recharges') or {}).get('stations', [])):
         out.append(16)
@@ -368,9 +366,15 @@ def seen_matrices(d):
     locs = [tuple(l) for l in d['_locs']]
     if any(l[0] == 'i' for l in locs):
         return []
+    if bad_speed(d):
+        return []                                  # X14 repair (01921b9): nothing is approximated for a speed that is not positive
     n = ndistinct(locs)
     return [{'profile': p, 'timestamp': None, 'travelTimes': [0] * (n * n), 'distances': [0] * (n * n), 'errorCodes': None}
             for p in d['profiles']]
+
+
+def bad_speed(d):
+    return any(s is not None and s <= 0 for s in (d.get('speeds') or []))
 
 
 def py_transport_fails(d):
